@@ -20,10 +20,11 @@
        holds outright ([obj_free_lit_nodup]); for the rest see the comment at [document_bridge]. *)
 From Coq Require Import List ZArith Bool Lia.
 From ApiFu Require Import Base.Sexp.
-From ApiFu Require Import Val.Values Val.MapFacts Val.CoerceModel Val.CoerceSpec Val.CoerceProofs Val.CoerceRefine Val.BridgeC04Proofs.
+From ApiFu Require Import Val.Values Val.MapFacts Val.CoerceModel Val.CoerceSpec Val.CoerceProofs Val.CoerceRefine Val.BridgeC04 Val.BridgeC04Proofs Val.BridgeC04Doc.
 From ApiFu Require Vld.Ast Vld.ValidatorModel Vld.ValidSpec Vld.Hyps Vld.TypeInfoPure Vld.ProofsCommon Vld.ProofsArguments Vld.ProofsValues Vld.ProofsOrder Vld.ValidatorProofs.
 From ApiFu Require Cost.CostModel.
-From ApiFu Require Import Cost.CostArgs Cost.CostArgsProofs Cost.CostTrace Cost.CostTraceProofs.
+From ApiFu Require Import Cost.CostArgs Cost.CostArgsProofs Cost.CostTrace Cost.CostTraceProofs Cost.CostC04Usage.
+From ApiFu Require Vld.ProofsTypeInfoValues.
 Import ListNotations.
 
 Section Reference.
@@ -158,3 +159,179 @@ Section Accepted.
       + intros f Hf. split; [apply Hba; exact Hf|apply Hlits; exact Hf].
   Qed.
 End Accepted.
+
+(** ** round 5: two of the three implications of [document_bridge] discharged through C05's document
+    bridge (Val/BridgeC04Doc.v, [C05_C04_accepts_implies_static_ok_partial], and the completed
+    literal bridge [C05_C04_coercion_bridge_partial], objects included).
+
+    The premises are now C04's own per-node checks RUN on the translation of each field selection of
+    the request ([BridgeC04.tr_args], [tr_argdefs], [tr_lit], [tr_sty], [tr_env]):
+      - validateArguments' check on the node ([ValidatorModel.args_node repaired]) is silent;
+      - validateCoercion ([c04_accepts] = [ValidatorModel.coercion repaired] on the translation) is
+        silent on every argument value at its declared type and on every variable default.
+    From them: argument names unique, [lit_nodup] of every literal (so every call is
+    reference-coerced) — no hypothesis about the request's uniqueness facts is left.
+    What remains (the third implication, validateVariables): [field_usage_ok], i.e. that C04's
+    [usage_errs] on the translated value (C04_variable_usages_in_value / C04_typeinfo_arguments /
+    _list_items / _object_fields give the visitor's errors as that recursion) is C05's [usage_ok];
+    the two leaf functions agree ([C05_C04_types_compatible], [C05_C04_variable_usage]), the
+    recursion through list items / object fields / the scalar mark is not related yet; and C05's gap
+    (b): that the whole-document verdict [validate_model = Done []] yields these per-node premises
+    ([inspect] reaches exactly these nodes). *)
+Section Nodes.
+  Variable C : Type.
+  Variable E : env.
+  Variable dt : bytes -> option bytes.
+  Variable ops : list (aop C).
+  Variable frs : list (bytes * anode C).
+  Variable opname : bytes.
+  Variable raw : list (name * jval).
+  Variable o : aop C.
+
+  (** C04's node-level checks on the translation of one field selection *)
+  Definition c04_node_silent (f : afield C) : Prop :=
+    (exists p, fst (ValidatorModel.args_node ValidatorModel.repaired ValidatorModel.id_order []
+                      (tr_args 0 (af_args f)) (tr_argdefs (af_argdefs f)) p) = []) /\
+    (forall a d, In a (af_args f) -> aget (fst a) (af_argdefs f) = Some d -> c04_accepts E (snd a) (in_type d) true = true).
+  Definition c04_defaults_silent : Prop :=
+    forall def dflt, In def (ao_vardefs o) -> vd_default def = Some dflt ->
+                     type_known E (vd_type def) = true /\ c04_accepts E dflt (vd_type def) true = true.
+
+  Lemma node_facts (f : afield C) :
+    bridgeable E = true -> (no_float E = true \/ float_leaves_agree dt) ->
+    c04_node_silent f -> c04_defaults_silent ->
+    dup_names (map fst (af_args f)) = false /\
+    (forall a l, In (a, l) (af_args f) -> lit_nodup l = true) /\
+    (forall def dflt, In def (ao_vardefs o) -> vd_default def = Some dflt -> lit_nodup dflt = true).
+  Proof.
+    intros HB HF ((p & Hn) & Hv) Hd.
+    pose proof (arguments_values_from_c04 E dt (af_argdefs f) (ao_vardefs o) (af_args f) p HB HF Hn Hv Hd) as St.
+    unfold static_ok_arguments_values in St.
+    repeat (apply andb_true_iff in St as [St ?]).
+    split; [|split].
+    - rewrite dup_names_has_dup.
+      match goal with X : negb (has_dup (map fst (af_args f))) = true |- _ => apply negb_true_iff in X; exact X end.
+    - intros a l Hin.
+      match goal with X : forallb (fun a0 => match aget (fst a0) (af_argdefs f) with Some d => validate_coercion _ _ _ _ _ | None => false end) (af_args f) = true |- _ =>
+        rewrite forallb_forall in X; specialize (X _ Hin); cbn [fst snd] in X end.
+      destruct (aget a (af_argdefs f)); [|discriminate]. eapply validate_nodup; eassumption.
+    - intros def dflt Hin Hdf.
+      match goal with X : forallb (fun def0 => match vd_default def0 with Some d => _ && validate_coercion _ _ _ _ _ | None => true end) (ao_vardefs o) = true |- _ =>
+        rewrite forallb_forall in X; specialize (X _ Hin); rewrite Hdf in X; apply andb_true_iff in X as [_ X] end.
+      eapply validate_nodup; eassumption.
+  Qed.
+
+  Theorem c04_nodes_cost_calls skip_zero fuel dc ctx0 max :
+    bridgeable E = true -> (no_float E = true \/ float_leaves_agree dt) ->
+    chosen_op C ops opname = Some o ->
+    env_ok E = true ->
+    (* C04's per-node checks, silent on the translation of every field selection and default *)
+    (forall f, in_request C o frs f -> c04_node_silent f) -> c04_defaults_silent ->
+    (* the schema: argument definitions named once, defaults are values of their types *)
+    (forall f, in_request C o frs f ->
+               has_dup (map fst (af_argdefs f)) = false /\
+               forall ad, In ad (af_argdefs f) -> default_ok E (snd ad) = true) ->
+    (* the parser: default values are constants; Go: well-formed variable values *)
+    (forall def dflt, In def (ao_vardefs o) -> vd_default def = Some dflt -> lit_vars dflt = []) ->
+    (forall p, In p raw -> jval_ok (snd p) = true) ->
+    forall c, In c (snd (validate_cost_trace C E dt skip_zero fuel dc ctx0 ops frs opname raw max)) ->
+      (* reference-coerced: no further hypothesis *)
+      (exists vv,
+         ref_variable_values E dt (ao_vardefs o) raw = Some vv /\
+         ref_argument_values E dt (af_argdefs (c_field c))
+           (map (fun p => match p with (k, l) => (k, abs_lit vv l) end) (af_args (c_field c))) = Some (c_args c)) /\
+      (* conforming: given what validateVariables establishes (the remaining gap) *)
+      (has_dup (map vd_name (ao_vardefs o)) = false ->
+       (forall f, in_request C o frs f -> field_usage_ok C E (ao_vardefs o) f = true) ->
+       args_conform_b E (af_argdefs (c_field c)) (c_args c) = true).
+  Proof.
+    intros HB HF Ho HE Hnodes Hdefs Hschema Hclosed Hraw c Hin.
+    split.
+    - apply (trace_calls_reference C E dt skip_zero fuel dc ctx0 ops frs opname raw max o Ho HE Hraw); [| |exact Hin].
+      + destruct (ao_vardefs o) as [|d0 r] eqn:Ed.
+        * intros def dflt [].
+        * intros def dflt Hd Hdf.
+          (* any field's node facts carry the defaults; use the defaults premise directly *)
+          destruct (Hdefs def dflt) as (_ & Hc); [rewrite Ed; exact Hd|exact Hdf|].
+          rewrite (bridge_bridgeable E dt HB HF) in Hc. eapply validate_nodup; exact Hc.
+      + intros f Hf. destruct (node_facts f HB HF (Hnodes f Hf) Hdefs) as (H1 & H2 & _). split; assumption.
+    - intros Hnd Husage.
+      apply (trace_calls_conform C E dt skip_zero fuel dc ctx0 ops frs opname raw max o Ho HE Hnd); [| |exact Hin].
+      + split; [exact Hclosed|exact Hraw].
+      + intros f Hf. destruct (Hschema f Hf) as (H1 & H2). split; [exact H1|]. split; [exact H2|apply Husage; exact Hf].
+  Qed.
+End Nodes.
+
+(** ** round 5, continued: the third implication as well.  [field_usage_ok] follows from C04's
+    [usage_errs] (the errors of validateVariables' visitor inside the annotated argument value,
+    C04_variable_usages_in_value) being empty on the translation, jointly with the values rule
+    ([CostC04Usage.usage_from_c04]).  All three facts the every-call theorems need are now derived from
+    C04's per-node functions run on the translation of the request; what is left is C05's gap (b)
+    alone: that the whole-document verdict yields these per-node premises. *)
+Section Nodes3.
+  Variable C : Type.
+  Variable E : env.
+  Variable dt : bytes -> option bytes.
+  Variable ops : list (aop C).
+  Variable frs : list (bytes * anode C).
+  Variable opname : bytes.
+  Variable raw : list (name * jval).
+  Variable o : aop C.
+  (** C04's annotated variable definitions of the chosen operation *)
+  Variable vars' : list Ast.vardef.
+
+  (** validateVariables' visitor is silent inside every argument value of the selection; every
+      argument given is defined *)
+  Definition c04_usage_silent (f : afield C) : Prop :=
+    forall a l, In (a, l) (af_args f) ->
+      exists d, aget a (af_argdefs f) = Some d /\
+        nil_errs (ProofsTypeInfoValues.usage_errs true (tr_env E) vars' false
+                    (Some (tr_sty (in_type d))) (arg_loc_default true d) (tr_lit l)) = true.
+
+  Lemma field_usage_from_c04 (f : afield C) :
+    bridgeable E = true -> (no_float E = true \/ float_leaves_agree dt) ->
+    Forall2 vardef_rel (ao_vardefs o) vars' ->
+    (forall d, In d (ao_vardefs o) -> type_known E (vd_type d) = true) ->
+    c04_node_silent C E f -> c04_usage_silent f ->
+    field_usage_ok C E (ao_vardefs o) f = true.
+  Proof.
+    intros HB HF Hv Hk (_ & Hacc) Hu. unfold field_usage_ok. apply forallb_forall. intros [a l] Hin.
+    destruct (Hu a l Hin) as (d & Hd & He). cbn [fst snd]. rewrite Hd.
+    apply (usage_from_c04 E dt (ao_vardefs o) vars' Hv Hk l (in_type d) true (arg_loc_default true d)); [|exact He].
+    rewrite <- (bridge_bridgeable E dt HB HF). apply (Hacc (a, l) d Hin Hd).
+  Qed.
+
+  Theorem c04_nodes_cost_calls_all skip_zero fuel dc ctx0 max :
+    bridgeable E = true -> (no_float E = true \/ float_leaves_agree dt) ->
+    chosen_op C ops opname = Some o ->
+    env_ok E = true ->
+    (* C04's per-node functions on the translation of the request *)
+    (forall f, in_request C o frs f -> c04_node_silent C E f /\ c04_usage_silent f) ->
+    c04_defaults_silent C E o ->
+    Forall2 vardef_rel (ao_vardefs o) vars' ->
+    (* what C04's vardefs_loop reports otherwise (EVarDup, EVarUnknownType) *)
+    has_dup (map vd_name (ao_vardefs o)) = false ->
+    (forall d, In d (ao_vardefs o) -> type_known E (vd_type d) = true) ->
+    (* the schema *)
+    (forall f, in_request C o frs f ->
+               has_dup (map fst (af_argdefs f)) = false /\
+               forall ad, In ad (af_argdefs f) -> default_ok E (snd ad) = true) ->
+    (* the parser; Go *)
+    (forall def dflt, In def (ao_vardefs o) -> vd_default def = Some dflt -> lit_vars dflt = []) ->
+    (forall p, In p raw -> jval_ok (snd p) = true) ->
+    forall c, In c (snd (validate_cost_trace C E dt skip_zero fuel dc ctx0 ops frs opname raw max)) ->
+      args_conform_b E (af_argdefs (c_field c)) (c_args c) = true /\
+      exists vv,
+        ref_variable_values E dt (ao_vardefs o) raw = Some vv /\
+        ref_argument_values E dt (af_argdefs (c_field c))
+          (map (fun p => match p with (k, l) => (k, abs_lit vv l) end) (af_args (c_field c))) = Some (c_args c).
+  Proof.
+    intros HB HF Ho HE Hnodes Hdefs Hvars Hnd Hknown Hschema Hclosed Hraw c Hin.
+    destruct (c04_nodes_cost_calls C E dt ops frs opname raw o skip_zero fuel dc ctx0 max HB HF Ho HE
+                (fun f Hf => proj1 (Hnodes f Hf)) Hdefs Hschema Hclosed Hraw c Hin) as (Href & Hconf).
+    split; [|exact Href].
+    apply Hconf; [exact Hnd|].
+    intros f Hf. destruct (Hnodes f Hf) as (Hn & Hu).
+    apply (field_usage_from_c04 f HB HF Hvars Hknown Hn Hu).
+  Qed.
+End Nodes3.
